@@ -86,6 +86,9 @@ func accessPath(v ssa.Value, depth int) string {
 	switch x := v.(type) {
 	case *ssa.Parameter:
 		return x.Name()
+	case *ssa.FreeVar:
+		// a captured variable: the same variable as the enclosing function's (whose cell carries the same name)
+		return x.Name()
 	case *ssa.Alloc:
 		if x.Comment != "" && x.Comment != "complit" && x.Comment != "varargs" {
 			return x.Comment
@@ -542,9 +545,83 @@ func ErrorsVoidResult(p *load.Prog, r *oblig.Report, rule string, fn *ssa.Functi
 			r.Bad(rule, construct, p.Pos(ret.Pos()), "a model is returned without the guard `errorListener.Errors == nil`: a document with collected errors can still yield a model")
 		}
 	}
+	// a return that hands on the results of a repository function unchanged (return model, err := other(data)):
+	// successful exactly when the other function is, so that function's own successful returns must be guarded
+	for _, b := range fn.Blocks {
+		ret, ok := b.Instrs[len(b.Instrs)-1].(*ssa.Return)
+		if !ok {
+			continue
+		}
+		if h := delegatedTo(ret); h != nil {
+			n++
+			if delegateGuarded(h, 0) {
+				r.OK(rule, construct, p.Pos(ret.Pos()), "delegated", "results of "+load.FuncName(h)+", whose successful returns are dominated by Errors == nil")
+			} else {
+				r.Bad(rule, construct, p.Pos(ret.Pos()), "the results of "+load.FuncName(h)+" are handed on, and that function can return a model without the guard `errorListener.Errors == nil`")
+			}
+		}
+	}
 	if n == 0 {
 		r.Unknown(rule, construct, p.Pos(fn.Pos()), "no successful return found")
 	}
+}
+
+// delegatedTo: the error result of ret is the error result of a call to a repository function (nil otherwise).
+func delegatedTo(ret *ssa.Return) *ssa.Function {
+	fn := ret.Parent()
+	ei := returnsError(fn)
+	if ei < 0 || ei >= len(ret.Results) {
+		return nil
+	}
+	v := ret.Results[ei]
+	for {
+		switch x := v.(type) {
+		case *ssa.MakeInterface:
+			v = x.X
+			continue
+		case *ssa.ChangeInterface:
+			v = x.X
+			continue
+		}
+		break
+	}
+	ex, ok := v.(*ssa.Extract)
+	if !ok {
+		return nil
+	}
+	call, ok := ex.Tuple.(*ssa.Call)
+	if !ok {
+		return nil
+	}
+	h := call.Common().StaticCallee()
+	if h == nil || !load.InRepo(h) || len(h.Blocks) == 0 || returnsError(h) != ex.Index {
+		return nil
+	}
+	return h
+}
+
+func delegateGuarded(h *ssa.Function, depth int) bool {
+	if depth > 3 {
+		return false
+	}
+	n := 0
+	for _, hr := range SuccessReturns(h) {
+		n++
+		if !successGuarded(hr.Block(), depth+1) {
+			return false
+		}
+	}
+	for _, b := range h.Blocks {
+		if ret, ok := b.Instrs[len(b.Instrs)-1].(*ssa.Return); ok {
+			if h2 := delegatedTo(ret); h2 != nil {
+				n++
+				if !delegateGuarded(h2, depth+1) {
+					return false
+				}
+			}
+		}
+	}
+	return n > 0
 }
 
 // successGuarded: the block is reached only when ParseDSL's error listener collected nothing — directly
